@@ -472,7 +472,7 @@ def elements(rng, n, per, kind):
         for _ in range(n):
             a = [rng.uniform(-1, 1) for _ in range(3)]
             d = [rng.uniform(-1, 1) for _ in range(3)]
-            e = [rng.uniform(-1, 1) * rng.choice([1e-4, 1e-7]) for _ in range(3)]
+            e = [rng.uniform(-1, 1) * rng.choice([1e-2, 1e-3]) for _ in range(3)]  # aspect ratio up to ~1e3
             v = [a, [a[k] + d[k] for k in range(3)], [a[k] + 0.5 * d[k] + e[k] for k in range(3)]]
             els.append(v[:per])
     elif kind == 'degenerate':  # zero-length segments, collinear / repeated-vertex triangles
@@ -658,10 +658,10 @@ def adversarial_tri(rng):
     elif m < 0.4:
         t = [a, [a[k] + d[k] for k in range(3)], list(a)]
     elif m < 0.6:
-        w = rng.choice([1e-3, 1e-6, 1e-9, 1e-12])
+        w = rng.choice([1e-1, 1e-2, 1e-3])  # sharper needles / larger scales: stream search_scale
         t = [a, [a[k] + d[k] for k in range(3)], [a[k] + 0.5 * d[k] + w * e[k] for k in range(3)]]
     elif m < 0.7:
-        s = rng.choice([1e-20, 1e-8, 1e8, 1e20])
+        s = rng.choice([1e-20, 1e-8, 1e-3, 0.5])
         t = [[s * v for v in a], [s * (a[k] + d[k]) for k in range(3)], [s * (a[k] + e[k]) for k in range(3)]]
     else:
         t = [a, [a[k] + d[k] for k in range(3)], [a[k] + e[k] for k in range(3)]]
@@ -752,6 +752,176 @@ def oracle_kernel(ops, impl):
     return bad
 
 
+# ---------------------------------------------------------------------------
+# scale stream: ref_search_distance3 over element sizes 1e-6 .. 1e8 and needle aspect ratios up to 1e12
+# ---------------------------------------------------------------------------
+SITE_D3 = 'ref_search_distance3:unnormalised-normal-projection'
+
+
+def py_distance2(p0, p1, x):
+    """ref_search_distance2 transcribed operation by operation (python float = IEEE double, no FMA)"""
+    dl = [p1[0] - p0[0], p1[1] - p0[1], p1[2] - p0[2]]
+    dx = [x[0] - p0[0], x[1] - p0[1], x[2] - p0[2]]
+    len2 = dl[0] * dl[0] + dl[1] * dl[1] + dl[2] * dl[2]
+    proj2 = dx[0] * dl[0] + dx[1] * dl[1] + dx[2] * dl[2]
+    if abs(1.0e20 * len2) > abs(proj2):
+        t = proj2 / len2
+        t = t if t > 0.0 else 0.0
+        t = t if t < 1.0 else 1.0
+        dx = [x[0] - (p0[0] + t * dl[0]), x[1] - (p0[1] + t * dl[1]), x[2] - (p0[2] + t * dl[2])]
+    return math.sqrt(dx[0] * dx[0] + dx[1] * dx[1] + dx[2] * dx[2])
+
+
+def _nrm(a, b, c):
+    e1 = [b[0] - a[0], b[1] - a[1], b[2] - a[2]]
+    e2 = [c[0] - a[0], c[1] - a[1], c[2] - a[2]]
+    return [e1[1] * e2[2] - e1[2] * e2[1], e1[2] * e2[0] - e1[0] * e2[2], e1[0] * e2[1] - e1[1] * e2[0]]
+
+
+def _dot(a, b):
+    return a[0] * b[0] + a[1] * b[1] + a[2] * b[2]
+
+
+def py_distance3(p0, p1, p2, x):
+    """ref_search_distance3 as in /repo today, transcribed operation by operation"""
+    N = _nrm(p0, p1, p2)
+    q = [x[0] - p0[0], x[1] - p0[1], x[2] - p0[2]]
+    total = _dot(q, N)
+    q = [q[0] - N[0] * total, q[1] - N[1] * total, q[2] - N[2] * total]
+    xp = [q[0] + p0[0], q[1] + p0[1], q[2] + p0[2]]
+    b = [_dot(_nrm(xp, p1, p2), N), _dot(_nrm(p0, xp, p2), N), _dot(_nrm(p0, p1, xp), N)]
+    total = b[0] + b[1] + b[2]
+    if all(abs(1.0e20 * total) > abs(v) for v in b):
+        b = [b[0] / total, b[1] / total, b[2] / total]
+        if b[0] >= 0.0 and b[1] >= 0.0 and b[2] >= 0.0:
+            d = [b[0] * p0[k] + b[1] * p1[k] + b[2] * p2[k] - x[k] for k in range(3)]
+            return math.sqrt(_dot(d, d))
+    d = py_distance2(p0, p1, x)
+    e = py_distance2(p1, p2, x)
+    d = d if d < e else e
+    e = py_distance2(p2, p0, x)
+    return d if d < e else e
+
+
+def explained_by_projection_defect(f, impl_hex):
+    """the inaccurate value is exactly what today's algorithm produces in doubles (independent transcription
+    agrees bit for bit) and the triangle's |N|^2 is far from 1 (large elements or needles)"""
+    try:
+        p0, p1, p2, x = f[0:3], f[3:6], f[6:9], f[9:12]
+        N = _nrm(p0, p1, p2)
+        n2 = _dot(N, N)
+        v = py_distance3(p0, p1, p2, x)
+    except (OverflowError, ZeroDivisionError, ValueError):
+        return False
+    return fh(v) == impl_hex and not (1e-2 <= n2 <= 1e2)
+
+
+def scaled_tri(rng):
+    m = rng.random()
+    if m < 0.5:
+        s = 10.0 ** rng.uniform(-6, 8)
+        t = [[rng.uniform(-1, 1) * s for _ in range(3)] for _ in range(3)]
+        x = [rng.uniform(-2, 2) * s for _ in range(3)]
+    elif m < 0.85:
+        w = 10.0 ** rng.uniform(-12, -1)
+        a = [rng.uniform(-1, 1) for _ in range(3)]
+        d = [rng.uniform(-1, 1) for _ in range(3)]
+        e = [rng.uniform(-1, 1) * w for _ in range(3)]
+        t = [a, [a[k] + d[k] for k in range(3)], [a[k] + 0.5 * d[k] + e[k] for k in range(3)]]
+        if rng.random() < 0.5:
+            ww = [rng.random() for _ in range(3)]
+            sm = sum(ww)
+            x = [sum(ww[i] / sm * t[i][k] for i in range(3)) + rng.choice([0, 1e-3, 1e-1]) * rng.uniform(-1, 1)
+                 for k in range(3)]
+        else:
+            x = [rng.uniform(-1.5, 1.5) for _ in range(3)]
+    else:  # unit-size triangle far from the origin / far query
+        o = 10.0 ** rng.uniform(0, 6)
+        t = [[o + rng.uniform(-1, 1) for _ in range(3)] for _ in range(3)]
+        x = [o + rng.uniform(-2, 2) * rng.choice([1.0, 100.0]) for _ in range(3)]
+    return t, x
+
+
+def gen_scale(rng, tier):
+    ops = []
+    for _ in range(1500 if tier == 'quick' else 15000):
+        t, x = scaled_tri(rng)
+        ops.append('d3 %s %s' % (fhs([c for v in t for c in v]), fhs(x)))
+    # small wall-distance sessions over scaled meshes: tree result must be the minimum of the kernel values
+    for _ in range(12 if tier == 'quick' else 100):
+        ops.append('reset')
+        s = 10.0 ** rng.uniform(-6, 8)
+        n = rng.randint(2, 10)
+        tris = []
+        for _ in range(n):
+            c = [rng.uniform(-1, 1) * s for _ in range(3)]
+            tris.append([[c[k] + rng.uniform(-0.3, 0.3) * s for k in range(3)] for _ in range(3)])
+        for t in tris:
+            ops.append('tri %s' % fhs([c for v in t for c in v]))
+        perm = list(range(n))
+        rng.shuffle(perm)
+        ops.append('wallbuild 3 %s' % ' '.join(str(i) for i in perm))
+        for _ in range(4):
+            x = [rng.uniform(-1.5, 1.5) * s for _ in range(3)]
+            ops.append('nearest3 %s %s' % (fhs(x), fh(REF_DBL_MAX)))
+            for t in tris:
+                ops.append('d3 %s %s' % (fhs([c for v in t for c in v]), fhs(x)))
+    return ops
+
+
+class ScaleOracle:
+    """accuracy of every d3 evaluation (1e-12 L) + nearest3 == min of the d3 values of the same session.
+    Failures explained by the known projection defect carry its site id; if a run also shows an unexplained
+    failure only the unexplained ones are returned (also while shrinking), so the known finding cannot mask it."""
+
+    def __init__(self):
+        self.strict = None
+
+    def __call__(self, ops, impl):
+        unexplained, explained = [], []
+        last_nearest = None  # (index, value, x words)
+        kernel_min = None
+        for i, (o, r) in enumerate(zip(ops, impl)):
+            w = o.split()
+            if w[0] == 'reset':
+                last_nearest, kernel_min = None, None
+            elif w[0] == 'nearest3' and r.startswith('ok'):
+                if last_nearest is not None and kernel_min is not None and last_nearest[1] != kernel_min:
+                    unexplained.append((last_nearest[0], 'nearest3 returned %s but the minimum of the kernel values '
+                                        'of the inserted triangles is %s' % (last_nearest[1], kernel_min)))
+                last_nearest, kernel_min = (i, r.split()[1], w[1:4]), None
+            elif w[0] == 'd3' and r not in ('bad-op', 'failure'):
+                f = _floats(w[1:])
+                if f is None:
+                    continue
+                if last_nearest is not None and w[10:13] == last_nearest[2] and r != 'nan':
+                    if kernel_min is None or hf(r) < hf(kernel_min):
+                        kernel_min = r
+                sc = Scaler(f)
+                if not sc.ok:
+                    continue
+                if r == 'nan':
+                    unexplained.append((i, 'd3 returned NaN on finite input'))
+                    continue
+                d = hf(r)
+                P = [sc.p(f[3 * k:3 * k + 3]) for k in range(4)]
+                t2 = tri_d2(P[0], P[1], P[2], P[3])
+                if not within(d, t2, sc, tol_of(sc.L)):
+                    exact = math.sqrt(float(t2)) / (1 << sc.k)
+                    msg = 'd3 = %r but the exact distance is %r: off by %.3g = %.3g x 1e-12 L' % (
+                        d, exact, abs(d - exact), abs(d - exact) / tol_of(sc.L))
+                    if explained_by_projection_defect(f, r):
+                        explained.append((i, msg, SITE_D3))
+                    else:
+                        unexplained.append((i, msg))
+        if last_nearest is not None and kernel_min is not None and last_nearest[1] != kernel_min:
+            unexplained.append((last_nearest[0], 'nearest3 returned %s but the minimum of the kernel values of the '
+                                'inserted triangles is %s' % (last_nearest[1], kernel_min)))
+        if self.strict is None:
+            self.strict = bool(unexplained)
+        return unexplained if self.strict else unexplained + explained
+
+
 TREE = Stream('search_tree', 'h_search', 'search', gen_tree, oracle=oracle_tree,
               nontrivial=lambda op, out: out not in ('ok', 'bad-op', 'ok 0'))
 NEAREST = Stream('search_nearest', 'h_search', 'search', gen_nearest,
@@ -759,3 +929,5 @@ NEAREST = Stream('search_nearest', 'h_search', 'search', gen_nearest,
                  nontrivial=lambda op, out: out not in ('ok', 'bad-op'))
 KERNEL = Stream('search_kernel', 'h_search', 'search', gen_kernel, oracle=oracle_kernel,
                 nontrivial=lambda op, out: out not in ('bad-op',))
+SCALE = Stream('search_scale', 'h_search', 'search', gen_scale, oracle=ScaleOracle(),
+               nontrivial=lambda op, out: out not in ('ok', 'bad-op'))
